@@ -32,7 +32,7 @@ RULE = (
 STATE_MEASURE = "(record kind, field-shape classes: sign/zero of drag terms, exponent, designator presence, digits of element / revolution numbers, catalogue fault kind)"
 PROBES = [
     "grid_entry_bytes_equal", "free_entry_parsed_back", "digit_flips_rejected", "truncations_rejected", "line_number_subs_rejected", "catalogue_fault_checked",
-    "catalogue_warn_logged", "orbit_called_twice_with_mutation", "small_adjustment_written_back", "catalogue_layout_crlf", "catalogue_layout_blank", "catalogue_layout_noeol", "failed_frame_change_before_writing_back", "epoch_last_ms_before_midnight", "four_digit_element_number", "five_digit_revolutions",
+    "catalogue_warn_logged", "orbit_called_twice_with_mutation", "small_adjustment_written_back", "orbit_in_another_frame_written_back", "catalogue_layout_crlf", "catalogue_layout_blank", "catalogue_layout_noeol", "failed_frame_change_before_writing_back", "epoch_last_ms_before_midnight", "four_digit_element_number", "five_digit_revolutions",
     "negative_ndot", "negative_bstar", "zero_drag_terms", "empty_designator", "three_line_form", "damaged_entry_followed_by_valid",
 ]
 REAL_VS_STUB = "real: beyond.io.tle (Tle, from_orbit, from_string, orbit), Orbit/forms/Date; stub: none (the stored text is held by the simulated disk and corrupted there); model: independent fixed-column formatter / checksum / field reader"
@@ -521,6 +521,28 @@ def small_adjustment(ctx, TleR, e, t, k):
         txt = str(TleR.from_orbit(o)).splitlines()
     except Exception as ex:  # noqa
         ctx.violate("write", dict(fp, kind="adjusted_orbit_not_written", exc=type(ex).__name__), f"entry {k}: an orbit from Tle.orbit() whose element {idx} was moved by {units} printed units cannot be written: {type(ex).__name__}: {ex}")
+        return
+    # ... and the orbit of the parsed TLE expressed in another frame (still in TLE form) is written as the TEME elements it stands for
+    degenerate = printed[2] < 2000 or printed[2] > 9000000 or printed[0] < 2000 or printed[0] > 1800000 - 2000  # near-parabolic, near-circular / near-equatorial: perigee and node are ill-defined
+    try:
+        if degenerate:
+            raise ArithmeticError("degenerate elements")
+        o4 = t.orbit()
+        o4.frame = "EME2000" if (h % 2) else "MOD"
+        l2b = str(TleR.from_orbit(o4)).splitlines()[-1]
+        gotb = [int(round(float(("0." + l2b[a:b].strip()) if q == 2 else l2b[a:b]) * f)) for q, (a, b, f) in enumerate(cols)]
+    except Exception as ex:  # noqa
+        gotb = f"{type(ex).__name__}: {ex}"
+    ctx.checks += 1
+    if not degenerate:
+        ctx.probe("orbit_in_another_frame_written_back")
+    tolb = [2, 2, 2, 2, 2, 3]
+    okb = isinstance(gotb, list) and all(min(abs(g_ - p_), (360 * 10**4 - abs(g_ - p_)) if q_ in (1, 3, 4) else 10**12) <= tolb[q_] for q_, (g_, p_) in enumerate(zip(gotb, printed)))
+    # near-circular / near-equatorial orbits: perigee and node are ill-defined, only their sums are kept by a frame change
+    if degenerate:
+        okb = True
+    if not okb:
+        ctx.violate("write", dict(fp, kind="orbit_in_another_frame_written_differently"), f"entry {k}: the orbit of the parsed TLE, moved in place to another frame and written back, gives element fields {gotb}; parsed from\n   {l2}\n(fields {printed})")
         return
     n2 = txt[-1]
     ctx.checks += 1
